@@ -23,6 +23,7 @@ type c20driver struct {
 	threads  [][]ProbeOp
 	threads2 [][]ProbeOp // thorough: two operations per thread
 	contexts []string
+	setup    []ProbeOp // run before the threads start
 }
 
 // environment of the probes: some of the variables the drivers read are set, some are not
@@ -97,6 +98,30 @@ func c20drivers() []c20driver {
 			c.Decorators = []Decorator{{Tag: "http", Decorator: "pk2.Dec1", Args: []any{"@requestID"}}}
 		}), threads: [][]ProbeOp{{opCtx("getctx", "A", "handler")}, {opCtx("getctx", "B", "handler")}, {opCtx("getctx", "A", "requestID")}},
 			threads2: [][]ProbeOp{{opCtx("getctx", "A", "front"), opCtx("getctx", "B", "requestID")}, {opCtx("getctx", "B", "front"), opCtx("getctx", "A", "bareValue")}, {opCtx("getctx", "A", "handler"), opCtx("getctx", "B", "bareValue")}}},
+		{id: "tagged-contextual-members", contexts: []string{"A", "B"}, cfg: base(func(c *Cfg) {
+			// the consumer has no declared scope: it is contextual because a member of the tag it requests is
+			c.Services = []Service{{Name: "audit", Constructor: P("pk.New1"), Scope: P("contextual"), Tags: []Tag{{Name: "tx"}}}, {Name: "plain", Constructor: P("pk.New2"), Tags: []Tag{{Name: "tx", Priority: P(1)}}},
+				{Name: "repo", Constructor: P("pk.New3"), Args: []any{"!tagged tx"}}, {Name: "viaField", Value: P("pk.Obj{}"), Fields: []KV{{"F1", "!tagged tx"}}}}
+		}), threads: [][]ProbeOp{{opCtx("getctx", "A", "repo")}, {opCtx("getctx", "B", "repo")}, {opCtx("getctx", "A", "audit")}},
+			threads2: [][]ProbeOp{{opCtx("getctx", "A", "repo"), ProbeOp{Op: "taggedctx", Ctx: "A", Tag: "tx"}}, {opCtx("getctx", "B", "viaField"), opCtx("getctx", "B", "audit")}, {opCtx("getctx", "A", "viaField"), opCtx("getctx", "B", "repo")}}},
+		{id: "failing-getters", cfg: base(func(c *Cfg) {
+			// every operation fails (todo service, todo parameter, failing constructor): the error path is shared state too
+			c.Params = []Param{{"pt", "%todo()%"}, {"pu", "x%pt%"}}
+			c.Services = []Service{{Name: "later", Todo: P(true), Getter: P("FetchLater"), MustGetter: P(true)}, {Name: "broken", Constructor: P("pk.NewE"), Args: []any{"fail"}, Getter: P("FetchBroken"), Type: P("*pk.Obj")},
+				{Name: "needs", Constructor: P("pk.New"), Args: []any{"%pu%", "@later"}, Getter: P("FetchNeeds")}}
+		}), threads: [][]ProbeOp{{op("getter", "FetchNeeds")}, {op("getter", "FetchBroken")}, {op("getter", "FetchNeeds")}},
+			threads2: [][]ProbeOp{{op("getter", "FetchNeeds"), op("param", "pu")}, {op("getter", "FetchBroken"), op("getter", "FetchNeeds")}, {op("get", "later"), op("getter", "FetchBroken")}}},
+		{id: "override-then-concurrent-dependants", setup: []ProbeOp{
+			{Op: "overrideParam", Name: "dsn", Val: &ProbeSpec{Kind: "provider", V: map[string]any{"int": 7}}},
+			{Op: "overrideService", Name: "conn", Val: &ProbeSpec{Kind: "ctor", Ctor: "fx/pk.New2", Args: []any{"late"}}},
+		}, cfg: base(func(c *Cfg) {
+			// a todo parameter and a todo service are filled in before the threads start; their dependants - none of them
+			// constructed yet - are asked for concurrently and all receive the overriding values
+			c.Params = []Param{{"dsn", "%todo()%"}, {"url", "db://%dsn%"}, {"alias", "%dsn%"}}
+			c.Services = []Service{{Name: "conn", Todo: P(true)}, {Name: "repoA", Constructor: P("pk.New"), Args: []any{"%url%", "@conn"}}, {Name: "repoB", Constructor: P("pk.New1"), Args: []any{"%alias%", "@conn"}},
+				{Name: "repoC", Constructor: P("pk.New3"), Fields: []KV{{"F1", "%dsn%"}, {"F2", "@conn"}}}}
+		}), threads: [][]ProbeOp{{op("get", "repoA")}, {op("get", "repoB")}, {op("get", "repoC")}},
+			threads2: [][]ProbeOp{{op("get", "repoA"), op("param", "alias")}, {op("get", "repoB"), op("param", "url")}, {op("param", "dsn"), op("get", "repoC")}}},
 		{id: "typed-getters", cfg: base(func(c *Cfg) {
 			c.Params = []Param{{"dsn", `%env("C20_DSN", "default-dsn")%`}}
 			c.Services = []Service{{Name: "db", Constructor: P("pk.New"), Args: []any{"%dsn%"}, Getter: P("FetchDb"), Type: P("*pk.Obj"), MustGetter: P(true)}}
@@ -109,7 +134,7 @@ func init() {
 	Register(&Check{
 		ID:    "C20",
 		Level: "model_checking",
-		Rule: "13 drivers (a service with nothing injected that is contextual through the decorator on its tag, contextual services declared after todo services + single-reference alias parameters of a function parameter, shared chain with a multi-chunk parameter, %fn()% parameter used by two parameters, multi-chunk concatenation, contextual + unset-resolving-to-contextual under two attached contexts, non_shared + shared, tagged pair + consumer, decorated service, typed getters, several env()/envInt() chunks, a contextual service whose definition is spread over two files) x 3 threads x 1 operation on the same names: every interleaving with <= 2 preemptions (quick) / <= 3 preemptions and 2 operations per thread within a time budget (thorough); scheduling points before every Mutex.Lock, RWMutex.RLock/Lock and Once.Do of the runtime copy and before every statement of the generated code; " +
+		Rule: "16 drivers (a todo parameter and a todo service overridden before dependants are requested concurrently, contextual members of a requested tag, getters that fail concurrently, a service with nothing injected that is contextual through the decorator on its tag, contextual services declared after todo services + single-reference alias parameters of a function parameter, shared chain with a multi-chunk parameter, %fn()% parameter used by two parameters, multi-chunk concatenation, contextual + unset-resolving-to-contextual under two attached contexts, non_shared + shared, tagged pair + consumer, decorated service, typed getters, several env()/envInt() chunks, a contextual service whose definition is spread over two files) x 3 threads x 1 operation on the same names: every interleaving with <= 2 preemptions (quick) / <= 3 preemptions and 2 operations per thread within a time budget (thorough); scheduling points before every Mutex.Lock, RWMutex.RLock/Lock and Once.Do of the runtime copy and before every statement of the generated code; " +
 			"per execution: no deadlock, every operation returns exactly what the sequential run returns (canonical object graphs incl. identity across threads), construction / function-call counters equal the sequential run's (each shared service and each parameter built once), contextual instances of distinct contexts distinct. Separate free-running pass of the same bodies with the real sync package under -race (16 goroutines x 600 rounds per driver). states = executions (complete schedules), transitions = scheduling decisions",
 		Assumptions: []string{
 			"the scheduler controls sync.Mutex, sync.RWMutex (writer preference) and sync.Once of the runtime's container package and every statement boundary of generated code; unsynchronised accesses below that granularity are left to the -race pass",
@@ -149,7 +174,7 @@ func init() {
 								c.Violation("sched-probe-build:"+compilerKey(err.Error()), "controlled probe does not build:\n"+err.Error(), fm, nil)
 								return
 							}
-							spec := SchedSpec{Threads: d.threads, Contexts: d.contexts, Bound: 2, BudgetSec: 60, Shard: sh, NShards: shards}
+							spec := SchedSpec{Threads: d.threads, Contexts: d.contexts, Setup: d.setup, Bound: 2, BudgetSec: 60, Shard: sh, NShards: shards}
 							if !quick {
 								spec.Bound, spec.BudgetSec = 3, 240
 							}
@@ -239,7 +264,7 @@ func init() {
 				var cases []*BCase
 				for _, d := range drivers {
 					for ti, th := range [][][]ProbeOp{d.threads, d.threads2} {
-						var ops []ProbeOp
+						ops := append([]ProbeOp{}, d.setup...)
 						for _, t := range th {
 							ops = append(ops, t...)
 						}
@@ -282,7 +307,7 @@ func init() {
 						c.Violation("race-probe-build", "race probe does not build:\n"+err.Error(), FilesMap(files), nil)
 						return
 					}
-					spec := map[string]any{"threads": d.threads2, "contexts": d.contexts, "goroutines": 16, "rounds": 600, "seed": w.Env.Seed + 1}
+					spec := map[string]any{"threads": d.threads2, "contexts": d.contexts, "setup": d.setup, "goroutines": 16, "rounds": 600, "seed": w.Env.Seed + 1}
 					in, _ := json.Marshal(spec)
 					cmd := exec.Command(bin)
 					cmd.Stdin = bytes.NewReader(in)
